@@ -227,7 +227,11 @@ func (e *Explorer) Run(body func(c *C)) {
 			continue
 		}
 		if c.pos < len(c.stack) {
-			panic(HarnessPanic(fmt.Sprintf("explore: nondeterministic harness: execution ended after %d choices, %d were recorded", c.pos, len(c.stack))))
+			var tr []string
+			for _, f := range c.stack {
+				tr = append(tr, fmt.Sprintf("%s=%d/%d", f.label, f.chosen, f.n))
+			}
+			panic(HarnessPanic(fmt.Sprintf("explore: nondeterministic harness: execution ended after %d choices, %d were recorded; recorded choices: %v", c.pos, len(c.stack), tr)))
 		}
 		e.Stats.Executions++
 		e.Stats.Nodes += int64(len(c.stack) - before)
